@@ -1407,6 +1407,9 @@ func loadFunc(ctx *blockCtx, recv *types.Var, name string, d *ast.FuncDecl, genB
 			} else {
 				loadFuncBody(ctx, fn, body, nil, d)
 			}
+		} else {
+			// a declaration without body would leave an incomplete declaration behind (WriteTo panics on it)
+			ctx.handleErr(ctx.newCodeError(d.Pos(), "missing function body"))
 		}
 	}
 }
